@@ -98,7 +98,7 @@ static void exec_entry(int e, const Shape& sh, MODULE* mod, Run& R) {
     }
     case E_DFT: {
       int64_t* a = (int64_t*)R.in(ext(sh.s1));
-      for (uint64_t i = 0; i < sh.s1; ++i) fill64(a + i * sl, n, sh.mt == FFT64 ? 49 : 63, R.data);
+      for (uint64_t i = 0; i < sh.s1; ++i) fill64(a + i * sl, n, sh.mt == FFT64 ? 50 : 63, R.data);
       uint8_t* d = R.out(sh.s2 * dl);
       R.freeze();
       vec_znx_dft(mod, (VEC_ZNX_DFT*)d, sh.s2, a, sh.s1, sl);
@@ -121,7 +121,7 @@ static void exec_entry(int e, const Shape& sh, MODULE* mod, Run& R) {
     }
     case E_SVP_PREP: {
       int64_t* p = (int64_t*)R.in(n * 8);
-      fill64(p, n, 49, R.data);
+      fill64(p, n, 50, R.data);
       uint8_t* pp = R.out(bytes_of_svp_ppol(mod));
       R.freeze();
       svp_prepare(mod, (SVP_PPOL*)pp, p);
@@ -185,11 +185,12 @@ static void exec_entry(int e, const Shape& sh, MODULE* mod, Run& R) {
 // table-based / stand-alone kernels on exactly-sized, 8-byte-aligned buffers
 enum { K_REIM_FFT = 0, K_REIM_IFFT, K_CPLX_FFT, K_CPLX_IFFT, K_FROM_ZNX64, K_TO_ZNX64, K_TO_TNX, K_CPLX_FROM_ZNX32, K_CPLX_FROM_TNX32, K_CPLX_TO_TNX32, K_REIM_MUL,
        K_REIM_ADDMUL, K_CPLX_MUL, K_CPLX_ADDMUL, K_REIM4_MUL, K_REIM4_ADDMUL, K_Q120_NTT, K_Q120_INTT, K_Q120_BAA, K_Q120_BBB, K_Q120_BBC, K_Q120_FROM64, K_Q120_TO128,
-       K_ROT_INPLACE, K_AUT_INPLACE, K_COUNT };
+       K_ROT_INPLACE, K_AUT_INPLACE, K_SIMPLE_PAIR_TO_ZNX64, K_SIMPLE_PAIR_TO_TNX32, K_SIMPLE_PAIR_FROM_ZNX64, K_COUNT };
 static const char* KNAMES[K_COUNT] = {"reim_fft", "reim_ifft", "cplx_fft", "cplx_ifft", "reim_from_znx64", "reim_to_znx64", "reim_to_tnx", "cplx_from_znx32", "cplx_from_tnx32",
                                       "cplx_to_tnx32", "reim_fftvec_mul", "reim_fftvec_addmul", "cplx_fftvec_mul", "cplx_fftvec_addmul", "reim4_fftvec_mul", "reim4_fftvec_addmul",
                                       "q120_ntt_bb_avx2", "q120_intt_bb_avx2", "q120_vec_mat1col_product_baa", "q120_vec_mat1col_product_bbb", "q120_vec_mat1col_product_bbc",
-                                      "q120_b_from_znx64_simple", "q120_b_to_znx128_simple", "znx_rotate_inplace_i64", "znx_automorphism_inplace_i64"};
+                                      "q120_b_from_znx64_simple", "q120_b_to_znx128_simple", "znx_rotate_inplace_i64", "znx_automorphism_inplace_i64",
+                                      "reim_to_znx64_simple(m1 then m2)", "cplx_to_tnx32_simple(m1 then m2)", "reim_from_znx64_simple(m1 then m2)"};
 
 static void exec_kernel(int kf, uint64_t m, unsigned mask, uint64_t ell, int avx, Run& R) {
   spq::MaskGuard g(mask);
@@ -211,7 +212,7 @@ static void exec_kernel(int kf, uint64_t m, unsigned mask, uint64_t ell, int avx
     }
     case K_FROM_ZNX64: {
       int64_t* x = (int64_t*)R.in(2 * m * 8);
-      fill64(x, 2 * m, 49, R.data);
+      fill64(x, 2 * m, 50, R.data);
       double* o = (double*)R.out(2 * m * 8);
       auto* t = new_reim_from_znx64_precomp(m, 50);
       R.freeze();
@@ -326,6 +327,38 @@ static void exec_kernel(int kf, uint64_t m, unsigned mask, uint64_t ell, int avx
       R.result(o, m * 16);
       break;
     }
+    case K_SIMPLE_PAIR_TO_ZNX64: case K_SIMPLE_PAIR_TO_TNX32: case K_SIMPLE_PAIR_FROM_ZNX64: {
+      // the cached convenience API called twice in a row with DIFFERENT dimensions and otherwise equal parameters, each time on
+      // buffers of exactly the size of that call: a cache keyed on too little reads/writes with the other call's dimension
+      const uint64_t m2 = (ell & 1) ? m * 4 : (m >= 4 ? m / 4 : m * 2);
+      const uint64_t dims[2] = {m, m2};
+      for (int c = 0; c < 2; ++c) {
+        const uint64_t mm = dims[c];
+        if (kf == K_SIMPLE_PAIR_FROM_ZNX64) {
+          int64_t* x = (int64_t*)R.in(2 * mm * 8);
+          fill64(x, 2 * mm, 50, R.data);
+          double* o = (double*)R.out(2 * mm * 8);
+          R.freeze();
+          reim_from_znx64_simple((uint32_t)mm, 50, o, x);
+          R.result(o, 2 * mm * 8);
+        } else {
+          double* x = (double*)R.in(2 * mm * 8);
+          for (size_t i = 0; i < 2 * mm; ++i) x[i] = R.data.sunit() * 1000.0;
+          if (kf == K_SIMPLE_PAIR_TO_ZNX64) {
+            int64_t* o = (int64_t*)R.out(2 * mm * 8);
+            R.freeze();
+            reim_to_znx64_simple((uint32_t)mm, 4.0, avx ? 63 : 50, o, x);
+            R.result(o, 2 * mm * 8);
+          } else {
+            int32_t* o = (int32_t*)R.out(2 * mm * 4);
+            R.freeze();
+            cplx_to_tnx32_simple((uint32_t)mm, 2048.0, 18, o, x);
+            R.result(o, 2 * mm * 4);
+          }
+        }
+      }
+      break;
+    }
     default: {
       int64_t* x = (int64_t*)R.out(m * 8);
       fill64(x, m, 62, R.data);
@@ -343,7 +376,7 @@ std::vector<Sub> vh_subs() {
     Sub s;
     s.name = "vec";  // element-wise API on exactly-sized, misaligned buffers, zero sizes, with the C08 model (result still correct)
     s.fields = {{"k", 1, 12}, {"op", 0, vecops::NOPS - 1}, {"res_size", 0, 3}, {"a_size", 0, 3}, {"b_size", 0, 3}, {"res_pad", 0, 3}, {"a_pad", 0, 3}, {"b_pad", 0, 3},
-                {"alias", 0, 3}, {"misalign", 0, 7}, {"amode", 0, 1}, {"mtype", 0, 1}, {"cfg", 0, 1}, {"pu", 0, INT64_MAX - 1}, {"prefill", 0, 3}, {"seed", 0, INT64_MAX - 1}};
+                {"alias", 0, 4}, {"misalign", 0, 7}, {"amode", 0, 1}, {"mtype", 0, 1}, {"cfg", 0, 1}, {"pu", 0, INT64_MAX - 1}, {"prefill", 0, 3}, {"seed", 0, INT64_MAX - 1}};
     s.run = [](const Vals& v, Ctx& ctx) {
       vecops::Case c;
       c.k = v[0]; c.op = (int)v[1]; c.rs = v[2]; c.as = v[3]; c.bs = v[4];
@@ -368,7 +401,7 @@ std::vector<Sub> vh_subs() {
   {
     Sub s;
     s.name = "entry";  // module-level entry points: exact extents, exact scratch, prefill differential
-    s.fields = {{"k", 1, 12}, {"e", 0, E_COUNT - 1}, {"mtype", 0, 1}, {"cfg", 0, 1}, {"s1", 0, 4}, {"s2", 0, 4}, {"nrows", 1, 4}, {"ncols", 1, 4}, {"pad", 0, 3},
+    s.fields = {{"k", 1, 16}, {"e", 0, E_COUNT - 1}, {"mtype", 0, 1}, {"cfg", 0, 1}, {"s1", 0, 4}, {"s2", 0, 4}, {"nrows", 1, 4}, {"ncols", 1, 4}, {"pad", 0, 3},
                 {"kk", 1, 62}, {"begin", 0, 2}, {"step", 1, 3}, {"bits", 1, 18}, {"pf1", 0, 3}, {"pf2", 0, 3}, {"seed", 0, INT64_MAX - 1}};
     s.run = [](const Vals& v, Ctx& ctx) {
       Shape sh;
@@ -413,14 +446,15 @@ std::vector<Sub> vh_subs() {
   {
     Sub s;
     s.name = "kernels";
-    s.fields = {{"logm", 0, 12}, {"kf", 0, K_COUNT - 1}, {"cfg", 0, 1}, {"ell", 0, 40}, {"avx", 0, 1}, {"pf1", 0, 3}, {"pf2", 0, 3}, {"seed", 0, INT64_MAX - 1}};
+    s.fields = {{"logm", 0, 16}, {"kf", 0, K_COUNT - 1}, {"cfg", 0, 1}, {"ell", 0, 40}, {"avx", 0, 1}, {"pf1", 0, 3}, {"pf2", 0, 3}, {"seed", 0, INT64_MAX - 1}};
     s.run = [](const Vals& v, Ctx& ctx) {
       uint64_t logm = v[0];
       const int kf = (int)v[1];
       if ((kf == K_REIM4_MUL || kf == K_REIM4_ADDMUL) && logm < 2) logm = 2;
+      if (kf >= K_SIMPLE_PAIR_TO_ZNX64 && logm > 14) logm = 14;
       const uint64_t m = 1ull << logm;
       unsigned mask = v[2] ? spq::GENERIC : spq::FULL;
-      if (kf >= K_Q120_NTT) mask = spq::FULL;
+      if (kf >= K_Q120_NTT) mask = spq::FULL;  // q120 kernels and the *_simple caches: default dispatch only
       int pf2 = (int)v[6];
       if (pf2 == v[5]) pf2 = (pf2 + 1) & 3;
       ctx.notef("%s m=%llu cfg=%s ell=%lld avx=%lld", KNAMES[kf], (unsigned long long)m, mask ? "generic" : "full", (long long)v[3], (long long)v[4]);
